@@ -356,8 +356,8 @@ def _merge_shape(fields):
     Return the shape required to hold merged fields
     """
     rmin, rmax, cmin, cmax = boundary(fields)
-    # faster than np.any([rmin, rmax, cmin, cmax])
-    if rmin == 0 and rmax == 0 and cmin == 0 and cmax == 0:
+    # zero-dimensional fields at the origin merge into a zero-dimensional field
+    if _merge_scalars(fields):
         return ()
     else:
         return rmax - rmin + 1, cmax - cmin + 1
@@ -369,9 +369,8 @@ def _merge_slices(fields):
     """
     rmin, rmax, cmin, cmax = boundary(fields)
     out = []
-    # faster than np.any([rmin, rmax, cmin, cmax])
-    if rmin == 0 and rmax == 0 and cmin == 0 and cmax == 0:
-        out.append(Ellipsis)
+    if _merge_scalars(fields):
+        out.extend(Ellipsis for field in fields)
     else:
         for field in fields:
             frmin, frmax, fcmin, fcmax = field.extent
@@ -379,6 +378,13 @@ def _merge_slices(fields):
             col = slice(fcmin-cmin, fcmax-cmin+1)
             out.append((row, col))
     return out
+
+
+def _merge_scalars(fields):
+    """
+    True if every field is zero-dimensional and sits at the origin
+    """
+    return all(f.shape == () and f.extent == (0, 0, 0, 0) for f in fields)
 
 
 def _merge_offset(fields):
